@@ -86,5 +86,17 @@ CLAIMS = {
          "Coupled/pre_eig paths only bounded.",
     technique="real functions executed on symbolic inputs (concolic shim) against the dynamic-stiffness specification; sympy rational normal forms; bounded float checks",
     category="proof"),
+ "C09": dict(
+    text="Proof by non-interference plus body equivalence, for every schedule and worker count without running any: the parallel and serial arms of srs.srs "
+         "(4 worker functions x doic x getresp x stype add-back variants) and of fdepsd.fdepsd are extracted from the real source by AST and executed over opaque "
+         "terms (every library call and float operation uninterpreted): task j of the pool stores, term for term, exactly what iteration j of the serial loop "
+         "stores (so equal values bit for bit under any deterministic float semantics), into the same locations; task j writes only its own slot "
+         "(SRSmax_[j], HIST_[:,:,j], ASV_[:,j], BinAmps_[j], Count_[j,:]) and reads no other task's output; the task set is {0..LF-1} once each; shared inputs are "
+         "exact copies and outputs zero-initialised (rewrite axioms). Hence the final arrays are a function of the task set only. A bounded exploration of "
+         "completion orders with an in-process pool (real initializer, real tasks, all 6 orders of 3 tasks, 1 and 3 workers, unsorted frequencies, 0 Hz) is the "
+         "replay engine; a term mismatch without a concrete difference is reported as undecided, never as a violation.",
+    note="Trusted: the term interpreter vc/rel.py, the rewrite axioms for copyToSharedArray/createSharedArray/frombuffer, multiprocessing.Pool semantics (initializer "
+         "before tasks, each task once), determinism of NumPy/SciPy across processes.",
+    technique="relational verification: AST-extracted serial loop body vs worker body over uninterpreted terms + frame (write-set) conditions; bounded schedule exploration for replay"),
 }
 NOT_APPLICABLE = {}
